@@ -9,7 +9,11 @@ import dyn_rt, dyn_gen, dyn_mon          # noqa: E402
 
 pid, seed, n = sys.argv[1], int(sys.argv[2]), int(sys.argv[3])
 rng = random.Random(seed)
-scs = [sc for _, sc in dyn_gen.corpus()] + dyn_gen.targeted(pid, rng, n)
+if len(sys.argv) > 4:
+    # replay of one recorded scenario
+    scs = [json.load(open(sys.argv[4]))["case"]["scenario"]]
+else:
+    scs = [sc for _, sc in dyn_gen.corpus()] + dyn_gen.targeted(pid, rng, n)
 out = []
 for sc in scs:
     res, trace = dyn_rt.run(sc)
